@@ -660,6 +660,11 @@ def gen_exn_arg(rng, pools, pname, model_only):
             lambda: rng.choice([1.5, F(2, 3), Decimal("1.10")]),
             lambda: rng.choice(pools).reg.get_dimensionality("meter / second"),
             lambda: [rng.choice(["meter", "foo"]) for _ in range(rng.randint(0, 2))]]
+    if rng.random() < 0.22:
+        # falsy but not None: a __reduce__ / __init__ that tests truthiness instead of `is None` drops these
+        from pint.util import UnitsContainer
+        falsy = ["", 0, (), False] + ([] if model_only else [UnitsContainer(), 0.0, F(0), rng.choice(pools).reg.Unit(""), []])
+        return rng.choice(falsy)
     if pname in ("msg", "extra_msg", "dim1", "dim2", "name", "location") and rng.random() < 0.7:
         return simple[0]()
     if pname == "unit_names":
@@ -675,9 +680,49 @@ def exn_fields(row, e):
     if row["varargs"]:
         return {"args": canon_val(e.args)}
     out = {}
-    for f, _ in row["fields"]:
+    names = [f for f, _ in row["fields"]] + sorted(k for k in vars(e) if not k.startswith("_"))
+    for f in dict.fromkeys(names):
         out[f] = canon_val(getattr(e, f)) if hasattr(e, f) else ("<missing>",)
     return out
+
+
+def runtime_rows():
+    """The exception classes of pint found by IMPORTING it (independent of the translator T5): every class
+    defined in a pint module (testsuite excluded) that derives from an exception class of pint.errors, with
+    the parameters of its __init__.  Used by the oracles; when T5 is available the two lists must agree."""
+    import importlib
+    import inspect
+    import pkgutil
+    import pint
+    import pint.errors as pe
+    roots = tuple(c for c in vars(pe).values() if isinstance(c, type) and issubclass(c, BaseException) and c.__module__ == "pint.errors")
+    found = {}
+    for m in pkgutil.walk_packages(pint.__path__, "pint."):
+        if ".testsuite" in m.name:
+            continue
+        try:
+            mod = importlib.import_module(m.name)
+        except Exception:
+            continue                      # optional dependencies (dask, matplotlib, ...)
+        for c in vars(mod).values():
+            if isinstance(c, type) and issubclass(c, roots) and c.__module__ == m.name:
+                found[c.__module__ + "." + c.__qualname__] = c
+    for c in roots:
+        found[c.__module__ + "." + c.__qualname__] = c
+    rows = []
+    for q, c in sorted(found.items()):
+        own_init = next((k for k in c.__mro__ if "__init__" in vars(k)), None)
+        varargs = own_init is None or own_init.__module__ == "builtins"
+        params = []
+        if not varargs:
+            for n, p in list(inspect.signature(c.__init__).parameters.items())[1:]:
+                if p.kind not in (p.POSITIONAL_OR_KEYWORD,):
+                    varargs = True
+                    break
+                params.append((n, None if p.default is p.empty else "default"))
+        rows.append({"qual": q, "varargs": varargs, "params": [] if varargs else params,
+                     "fields": [] if varargs else [(n, None) for n, _ in params]})
+    return rows
 
 
 def exn_compare(row, e, r):
@@ -703,7 +748,7 @@ def exn_compare(row, e, r):
     return bad
 
 
-def part_exceptions(R, pools, rows):
+def part_exceptions(R, pools, rows, with_model=True):
     rng, ck = R.rng, R.ck
     n_each = 400 if R.thorough else 45
     for row in rows:
@@ -745,7 +790,7 @@ def part_exceptions(R, pools, rows):
                         kw = {params[0][0]: pos[0]}
             rp = {"class": qual, "args": [srepr(v) for v in pos], "kwargs": {k: srepr(v) for k, v in kw.items()}}
             cpos, ckw = [coq_val(v) for v in pos], [(k, coq_val(v)) for k, v in kw.items()]
-            in_model = all(cpos) and all(v for _, v in ckw)
+            in_model = with_model and all(cpos) and all(v for _, v in ckw)
             cargs = f"{coq_str(qual)} {coq_list(cpos)} {coq_list([f'({coq_str(k)}, {v})' for k, v in ckw])}" if in_model else None
             try:
                 e = cls(*pos, **kw)
@@ -781,9 +826,13 @@ def part_exceptions(R, pools, rows):
                     R.oracle(False, f"exn-roundtrip:{qual}:raises:{type(ex).__name__}", f"{how} of {qual} raises {ex!r}", dict(rp, how=how))
                     continue
                 bad = exn_compare(row, e, r)
+                fe, fr = (exn_fields(row, e), exn_fields(row, r)) if bad and bad != ["type"] else ({}, {})
                 R.oracle(not bad, f"exn-roundtrip:{qual}:{','.join(bad)}",
-                         f"{how} of {qual.rsplit('.', 1)[1]} loses {bad}: str before {sstr(e)[:120]!r}, after {sstr(r)[:120]!r}",
-                         dict(rp, how=how, lost=bad))
+                         f"{how} of {qual.rsplit('.', 1)[1]}({', '.join(rp['args'] + [k + '=' + v for k, v in rp['kwargs'].items()])[:160]}) loses {bad}: "
+                         + "; ".join(f"{k}: {fe.get(k)} -> {fr.get(k)}" for k in bad if k in fe)[:240]
+                         + (f"; str {sstr(e)[:100]!r} -> {sstr(r)[:100]!r}" if "str" in bad else ""),
+                         dict(rp, how=how, lost=bad, fields_before={k: str(v) for k, v in fe.items()},
+                              fields_after={k: str(v) for k, v in fr.items()}))
                 ck.count(f"exception-image:{how.split(':')[0]}")
                 if first and in_model:
                     first = False
@@ -802,7 +851,16 @@ def part_exceptions(R, pools, rows):
                lambda: copy.deepcopy(reg).define("meter = 3 * second") if reg._on_redefinition == "raise" else pint.UnitRegistry(on_redefinition="raise").define("meter = 3 second"),
                lambda: reg.parse_expression("1 +* 2 meter ("), lambda: reg.define("bad name = 3"),
                lambda: copy.deepcopy(reg).load_definitions(["km/ = 3"]), lambda: copy.deepcopy(reg).load_definitions(["@alias nonexistent_x = y", "z = "]),
-               lambda: copy.deepcopy(reg).load_definitions(["x = 1 *"])]
+               lambda: copy.deepcopy(reg).load_definitions(["x = 1 *"]),
+               lambda: reg.Quantity(10, "degC") / 2, lambda: 2 / reg.Quantity(10, "degC"), lambda: reg.Quantity(10, "degC") * 2,
+               lambda: reg.Quantity(10, "degC") / reg.Quantity(2, ""), lambda: reg.Quantity(10, "degC") * reg.Quantity(2, ""),
+               lambda: reg.Quantity(10, "degC") ** 2, lambda: reg.Quantity(10, "degC") / reg.Quantity(2, "degF"),
+               lambda: reg.Quantity(10, "degC") + reg.Quantity(2, "degF"), lambda: reg.Quantity([1, 2], "degC") * reg.Quantity(2, "m"),
+               lambda: reg.Quantity(10, "dBm") * 2, lambda: reg.Quantity(10, "dBm") / reg.Quantity(2, ""), lambda: 2 / reg.Quantity(10, "dB"),
+               lambda: reg.Quantity(10, "dBm") + reg.Quantity(1, "dB"), lambda: reg.Quantity(10, "dBm") * reg.Quantity(2, "dBm"),
+               lambda: reg.Quantity(10, "degC").to("dBm"), lambda: reg.Quantity(1, "kilodegC"), lambda: reg.Quantity(2, "m") + 1,
+               lambda: reg.Quantity(2, "m") < reg.Quantity(2, "s"), lambda: reg.parse_units("foo_x * bar_y"), lambda: reg.get_name("zzz"),
+               lambda: bool(reg.Quantity(0, "degC")), lambda: reg.Quantity(1, "degC").to_reduced_units() * reg.Quantity(1, "degC")]
     by_qual = {r["qual"]: r for r in rows}
     for i, f in enumerate(raisers):
         try:
@@ -813,16 +871,26 @@ def part_exceptions(R, pools, rows):
             row = by_qual.get(q)
             if row is None:
                 continue
-            for p in range(6):
+            import inspect
+            try:
+                src = inspect.getsource(f).strip().rstrip(",")[:160]
+            except Exception:
+                src = f"raiser {i}"
+            images = [(f"pickle:protocol{p}", (lambda p=p: pickle.loads(pickle.dumps(e, p)))) for p in range(6)]
+            images += [("copy", lambda: copy.copy(e)), ("deepcopy", lambda: copy.deepcopy(e))]
+            for how, fn in images:
                 try:
-                    r = pickle.loads(pickle.dumps(e, p))
+                    r = fn()
                 except Exception as ex:
-                    R.oracle(False, f"exn-roundtrip:{q}:raises:{type(ex).__name__}", f"pickling a raised {q} raises {ex!r}", {"raiser": i})
+                    R.oracle(False, f"exn-roundtrip:{q}:raises:{type(ex).__name__}", f"{how} of a raised {q} raises {ex!r}", {"raised_by": src})
                     continue
                 bad = exn_compare(row, e, r)
+                fe, fr = exn_fields(row, e), exn_fields(row, r)
                 R.oracle(not bad, f"exn-roundtrip:{q}:{','.join(bad)}",
-                         f"pickle of a raised {q.rsplit('.', 1)[1]} loses {bad}: {sstr(e)[:150]!r} -> {sstr(r)[:150]!r}",
-                         {"raiser": i, "class": q, "protocol": p, "lost": bad})
+                         f"{how} of the {q.rsplit('.', 1)[1]} raised by `{src}` loses {bad}: "
+                         + "; ".join(f"{k}: {fe.get(k)} -> {fr.get(k)}" for k in bad if k in fe)[:300],
+                         {"raised_by": src, "class": q, "how": how, "lost": bad,
+                          "fields_before": {k: str(v) for k, v in fe.items()}, "fields_after": {k: str(v) for k, v in fr.items()}})
                 ck.count("exception:as-raised")
     # defect switch for F17: does the implementation lose `location`?
     try:
@@ -831,7 +899,8 @@ def part_exceptions(R, pools, rows):
         loses = getattr(w, "location", None) != "units.txt"
     except Exception:
         loses = True
-    R.case(f"KF17 {coq_bool(loses)}", {"op": "F17 witness replayed", "loses_location": loses}, ("f17",))
+    if with_model:
+        R.case(f"KF17 {coq_bool(loses)}", {"op": "F17 witness replayed", "loses_location": loses}, ("f17",))
     ck.extra["switch_f17_loses_location"] = loses
 
 
@@ -1691,8 +1760,21 @@ def run(ck):
             lap(name)
     objs = guarded("objects", part_objects, R, pools, app, default=[])
     guarded("containers", part_containers, R)
+    try:
+        rrows = runtime_rows()
+    except Exception as e:
+        rrows = []
+        ck.broken.append(f"runtime discovery of exception classes failed: {type(e).__name__}: {e}")
+    ck.extra["runtime_exception_classes"] = [r["qual"] for r in rrows]
+    if rows and rrows and {r["qual"] for r in rows} != {r["qual"] for r in rrows}:
+        ck.broken.append("tie T5: exception classes found by the translator differ from those found by importing pint: "
+                         f"{sorted({r['qual'] for r in rows} ^ {r['qual'] for r in rrows})}")
     if rows:
         guarded("exceptions", part_exceptions, R, pools, rows)
+    elif rrows:
+        # the translator refused the source (reported as broken above): the property oracles still run, on the
+        # classes found by importing pint, so that a violation comes with its concrete failing input
+        guarded("exceptions", part_exceptions, R, pools, rrows, False)
     snap0, useq_cases = guarded("fresh subprocesses", part_subprocess, R, pools, objs, default=(None, []))
     guarded("cross-process hash", part_cross_process_hash, R, pools)
     guarded("registry pairs", part_registry_pairs, R)
